@@ -1,5 +1,5 @@
 """C19 - global indexes are encoded and decoded consistently everywhere."""
-from vlib import cN, cNhex, cbn, cbool
+from vlib import cN, cNhex, cbn, cbool, clist
 
 ID = "C19"
 PROPERTIES_V = ["theories/Properties/C19.v"]
@@ -11,7 +11,8 @@ CORR = "corr"
 SPEC = "spec"
 RULE = ("boundary triples {0,1,2,255,256,257,2^16-1,2^16,2^24-1,2^24,2^31-1,2^31,2^32-2,2^32-1}^2 x {mainnet,rollup} exhaustively, "
         "random triples (a quarter with few significant bytes), on-chain values at every 2^k-1,2^k,2^k+1 for k<=72, random canonical "
-        "rollup/mainnet values and a separate non-canonical stream; a case is non-trivial when it is a distinct input whose encoded value "
+        "rollup/mainnet values and a separate non-canonical stream; batches of 2..6 claims with different global indexes in ONE certificate "
+        "(real SendCertificate request, prover request, PPHashToSign, optimistic commitment over the claim list); a case is non-trivial when it is a distinct input whose encoded value "
         "is non-zero; distinct = distinct input")
 ASSUMPTIONS = ["on-chain global index values are < 2^256 (uint256)",
                "ABI decoding and big.Int are exercised by the correspondence only"]
@@ -27,6 +28,10 @@ def trip(d):
 
 def coq_case(o):
     i = o["in"]
+    if i["kind"] == "batch":
+        return ("CB {| b_ts := %s; b_wire := %s; b_prover := %s; b_exit_hash := %s; b_ler := %s; b_pp_hash := %s; b_opt_hash := %s |}" % (
+            clist([trip(t) for t in i["ts"]]), clist([cbn(x) for x in o.get("b_wire") or []]), clist([cbn(x) for x in o.get("b_prover") or []]),
+            clist([cNhex(x) for x in o.get("b_exit_hash") or []]), cNhex(o.get("b_ler", "")), cNhex(o.get("b_pp_hash", "")), cNhex(o.get("b_opt_hash", ""))))
     if i["kind"] == "triple":
         return ("CT {| t_m := %s; t_r := %s; t_l := %s; t_enc := %s; t_dec := %s; t_wire := %s; t_commit := %s; "
                 "t_gihash := %s; t_prover := %s |}" % (
@@ -40,6 +45,8 @@ def coq_case(o):
 
 def nontrivial_key(o):
     i = o["in"]
+    if i["kind"] == "batch":
+        return ["b", [[t["m"], t["r"], t["l"]] for t in i["ts"]]]
     if i["kind"] == "triple":
         return None if (i["r"] == 0 and i["l"] == 0 and not i["m"]) else ["t", i["m"], i["r"], i["l"]]
     return None if i["v"] == "0" else ["v", i["v"]]
@@ -50,12 +57,15 @@ def finding_key(o):
 
 
 def distribution(outs):
-    d = {"triple_mainnet": 0, "triple_rollup": 0, "value_canonical": 0, "value_noncanonical": 0, "errors": 0}
+    d = {"batches": 0, "batch_claims": 0, "triple_mainnet": 0, "triple_rollup": 0, "value_canonical": 0, "value_noncanonical": 0, "errors": 0}
     for o in outs:
         i = o["in"]
         if o.get("err"):
             d["errors"] += 1
-        if i["kind"] == "triple":
+        if i["kind"] == "batch":
+            d["batches"] += 1
+            d["batch_claims"] += len(i["ts"])
+        elif i["kind"] == "triple":
             d["triple_mainnet" if i["m"] else "triple_rollup"] += 1
         else:
             v = int(i["v"])
